@@ -194,3 +194,68 @@ def run(ctx):
              "language views, several builds each) - script_data_hash of the built body = hash of the pre-image TLC assembles from "
              "the emitted witness set",
         exhaustive=False)
+
+
+# ---------------------------------------------------------------------------------------------------
+# Validator binding (added by the ledger builder; add-only section): the C08 formula checked on the real
+# Conway validator (pallas_validate::phase1::conway::check_script_data_hash) through pv-ledger.
+#   pv-ledger c08-validator : fully valid signed transactions derived from accepted Conway fixtures in the
+#       script-data shapes datum-only (correct / flipped / absent hash) and Plutus fixture (correct / flipped),
+#       run through validate_tx; logs the byte strings of the pre-image parts, Blake2b-256 of their
+#       concatenation and the verdict.
+#   spec/ledger/TraceC08Validator.tla decides every event: hash = H[(redeemers | A0) || datums || views]
+#       => not rejected with ScriptIntegrityHash; another hash => rejected; absent hash => either.
+def validator_section(ctx):
+    binary = ctx.build("pv-ledger")
+    tr = ctx.path("c08_validator.ndjson")
+    ctx.run_bin(binary, ["c08-validator", "--out", tr])
+    events = vlib.read_ndjson(tr)
+    per_era = {}
+    for e in events:
+        if e["shape"].startswith("datum-only") and e["shape"].endswith("correct-hash") and e["verdict"] == "accept":
+            per_era[e["era"]] = per_era.get(e["era"], 0) + 1
+    for era in sorted({e["era"] for e in events}):
+        if per_era.get(era, 0) < 1:
+            # not necessarily a tool problem: a validator that rejects every correct datum-only hash is exactly what the
+            # trace spec reports below; it is vacuity only if TLC accepts the trace
+            ctx.notes.append("validator binding: no datum-only transaction with the correct hash is accepted in era %s" % era)
+    cur = list(events)
+    rounds = 0
+    while cur and rounds < 12:
+        rounds += 1
+        path = ctx.path("c08_validator_%d.ndjson" % rounds)
+        vlib.write_ndjson(path, [dict(e, seq=i + 1) for i, e in enumerate(cur)])
+        ok, matched, total, first = ctx.tlc_trace("ledger", "TraceC08Validator", "TraceC08Validator.cfg", path)
+        if ok:
+            break
+        e = cur[matched]
+        shape = e["shape"].split("/")
+        what = "%s-%s" % (e["verdict"], e.get("error") or "ok")
+        ctx.report("validator/%s/%s/%s/%s" % (e["era"], shape[0].rstrip("-0123456789"), shape[-1], what),
+                   "validate_tx verdict %s %s for a %s transaction whose script_data_hash %s the hash of the specified pre-image "
+                   "(redeemers %s, datums %s, views %s)" % (
+                       e["verdict"], e.get("detail", ""), e["shape"],
+                       "IS" if e["body_hash"] == e["expected_hash"] else "is NOT",
+                       e["redeemer_bytes"][:24], e["datum_bytes"][:24], e["views_bytes"][:12]),
+                   payload={"event": e})
+        cur = [x for x in cur[matched + 1:]]
+    if not ctx.violations and any(per_era.get(era, 0) < 1 for era in {e["era"] for e in events}):
+        raise vlib.ToolError("validator binding is vacuous: no accepted datum-only transaction per era (%s)" % per_era)
+    ctx.cov["traces_validated_against_impl"] += len(events)
+    ctx.cov["evaluations"] += len(events)
+    ctx.cov["validator_events"] = len(events)
+    ctx.sample({"validator_event": {k: (v[:40] if isinstance(v, str) else v) for k, v in events[0].items()}})
+
+
+_run_without_validator = run
+
+
+def run(ctx):  # noqa: F811  (wraps the check above: the validator section runs right before the evidence is written)
+    finish = ctx.finish
+
+    def finish_with_validator(*a, **kw):
+        validator_section(ctx)
+        return finish(*a, **kw)
+
+    ctx.finish = finish_with_validator
+    return _run_without_validator(ctx)
